@@ -26,7 +26,7 @@ ASSUMPTIONS = [
     "observable state is vlib.snapshot's snapshot plus the bytes B.read() produces",
 ]
 REQUIRED_LABELS = {
-    "quick": ["pair_same_recipe", "pair_other_type", "pair_clone", "pair_load_twice", "project_pair", "inplace_list_mutation", "reverse_direction", "save_load_a", "nested_mutation"],
+    "quick": ["pair_same_recipe", "pair_other_type", "pair_clone", "pair_load_twice", "project_pair", "inplace_list_mutation", "reverse_direction", "save_load_a", "nested_mutation", "bystander_legacy_sampler", "bystander_fixture"],
     "thorough": ["pair_same_recipe", "pair_other_type", "pair_clone", "pair_load_twice", "project_pair", "inplace_list_mutation", "reverse_direction", "save_load_a"]
     + ["type_" + t for t in build.attachable_types()],
 }
@@ -99,7 +99,52 @@ def pair_case(draw, max_mut, tname=None, nested=False):
             e = draw(edits.draw_edit(scratch_b, focus=True))
             edits.apply_edit(scratch_b, e)
             rev.append(e)
-    return {"a": a, "how": how, "b": b, "mutations": muts, "reverse": rev, "save_load_a": draw(st.booleans())}
+    return {"a": a, "how": how, "b": b, "mutations": muts, "reverse": rev, "save_load_a": draw(st.booleans()), "bystander": draw(st.sampled_from([None, None] + BYSTANDERS))}
+
+
+BYSTANDERS = ["legacy_sampler", "legacy_sampler_in_project", "fixture:sampler.sunsynth", "fixture:metamodule.sunsynth", "fixture:multictl.sunsynth", "short_lfo", "surplus_sampler"]
+
+
+def make_bystander(name):
+    """A third object that stays alive while A is built, mutated, saved, loaded and cloned: objects
+    loaded from files other SunVox versions wrote (legacy Sampler layout, fewer / more controller
+    values than today) and from shipped fixtures."""
+    import os
+    import struct
+
+    from rv.api import Project, Synth, m, read_sunvox_file
+    from vlib import chunktools
+    from vlib.harness import REPO
+
+    if name.startswith("fixture:"):
+        path = os.path.join(REPO, "tests", "files", name.split(":", 1)[1])
+        if not os.path.exists(path):
+            return None
+        with open(path, "rb") as f:
+            return load(f.read())
+    if name.startswith("legacy_sampler"):
+        from checks import c16
+
+        s = m.Sampler()
+        smp = s.Sample()
+        smp.data = bytes(range(40))
+        s.samples[1] = smp
+        s.volume_envelope.points = [(0, 0x4000), (16, 0x2000), (99, 0)]
+        vb, _ = c16.legacy_variant_bytes(Synth(s).read(), "both")
+        leg = load(vb)
+        if name.endswith("in_project"):
+            p = Project()
+            p.attach_module(leg.module)
+            p.new_module(m.Sampler)
+            return p
+        return leg
+    chunks = chunktools.parse(Synth(m.Lfo(freq=99) if name == "short_lfo" else m.Sampler()).read())
+    last_cval = max(i for i, (cid, _) in enumerate(chunks) if cid == b"CVAL")
+    if name == "short_lfo":
+        chunks = [c for i, c in enumerate(chunks) if not (c[0] == b"CVAL" and i > last_cval - 4)]
+    else:
+        chunks = chunks[: last_cval + 1] + [(b"CVAL", struct.pack("<i", 5))] * 2 + chunks[last_cval + 1 :]
+    return load(chunktools.build(chunks))
 
 
 def apply_mut(obj, e):
@@ -175,6 +220,8 @@ def run_case(ctx, case):
         cls = Project
         labels.add("project_pair")
     pristine = PRISTINE[cls][0]
+    bystander = make_bystander(case["bystander"]) if case.get("bystander") else None
+    by0 = observe(bystander) if bystander is not None else None
     A = make_obj(a_recipe)
     how = case["how"]
     if how == "same_recipe":
@@ -229,6 +276,14 @@ def run_case(ctx, case):
             if a1 != a0:
                 d = snapshot.diff(a0[0], a1[0])
                 raise PropertyViolation("C17.leak.reverse", "mutation %r of the clone changed the original: %r" % (e[:5], d[:3]), key="C17.leak:reverse")
+    if bystander is not None:
+        labels.add("bystander_" + case["bystander"].split(":")[0])
+        clone_of(A)  # one more way of loading while the bystander is alive
+        by1 = observe(bystander)
+        if by1[0] != by0[0]:
+            raise PropertyViolation("C17.leak.bystander", "building / mutating / saving / loading / cloning A changed an unrelated live object (%s): %r" % (case["bystander"], snapshot.diff(by0[0], by1[0])[:3]), key="C17.leak:bystander")
+        if by1[1] != by0[1]:
+            raise PropertyViolation("C17.leak.bystander.bytes", "building / mutating / saving / loading / cloning A changed the bytes an unrelated live object saves (%s): %d -> %d bytes" % (case["bystander"], len(by0[1]), len(by1[1])), key="C17.leak:bystander")
     # nothing process-wide was polluted: an object constructed now looks and saves like one constructed
     # before anything else happened in this process
     fs, fbytes = fresh_observation(cls)
